@@ -191,25 +191,71 @@ def main(prop, tier):
             raise vlib.Infra("edf table: %s" % (se or so)[-800:])
         table = json.load(open(os.path.join(w, "edf_table.json")))
         mst, mtr = model(w, 2 if tier == "thorough" else 1)
-        cases = []
-        for f in sorted(x for x in os.listdir(w) if re.match(r'edfu_\d+\.ndjson$', x)):
-            cases += [json.loads(x) for x in open(os.path.join(w, f)) if x.strip()]
-        if len(cases) < 1000:
-            raise vlib.Infra("TLC wrote only %d cases" % len(cases))
-        nuni = len(cases)
-        g = Gen(rng, table)
-        for i in range(100000 if tier == "thorough" else 8000):
-            cases.append(g.case(rng.choice([1, 2, 2, 3, 3, 4])))
+        # the cases go straight into the shard files (round robin, numbered within the shard); nothing but counts is kept in memory
         nshard = 14
+        outs = [open(os.path.join(w, "edf_cases_%d.ndjson" % i), "w") for i in range(nshard)]
+        counts = [0] * nshard
+        total = 0; samples = []
+        def put(line):
+            nonlocal total
+            i = total % nshard; counts[i] += 1; total += 1
+            outs[i].write(line[:-1] + ',"id":%d}\n' % counts[i])
+        for f in sorted(x for x in os.listdir(w) if re.match(r'edfu_\d+\.ndjson$', x)):
+            for x in open(os.path.join(w, f)):
+                x = x.strip()
+                if x:
+                    if total % 9973 == 0 and len(samples) < 2:
+                        samples.append(json.loads(x))
+                    put(x)
+        if total < 1000:
+            raise vlib.Infra("TLC wrote only %d cases" % total)
+        nuni = total
+        g = Gen(rng, table)
+        seen = set(); nrand = 100000 if tier == "thorough" else 8000
+        for i in range(nrand):
+            c = g.case(rng.choice([1, 2, 2, 3, 3, 4]))
+            x = json.dumps(c)
+            seen.add(hash(x))
+            if i == 0:
+                samples.append(c)
+            put(x)
+        for o in outs:
+            o.close()
+        def case_of(i, j):
+            """the j-th case (from 1) of shard i"""
+            with open(os.path.join(w, "edf_cases_%d.ndjson" % i)) as f:
+                for k, x in enumerate(f, 1):
+                    if k == j:
+                        return json.loads(x)
+            return {}
         def run(i):
-            mine = cases[i::nshard]
             cp = os.path.join(w, "edf_cases_%d.ndjson" % i); op = os.path.join(w, "edf_obs_%d.ndjson" % i)
-            with open(cp, "w") as f:
-                for j, c in enumerate(mine, 1):
-                    f.write(json.dumps(dict(c, id=j)) + "\n")
             rc, so, se, to = vlib.run_vh(vh, ["edf", "-in", cp, "-out", op], timeout=3000)
             if rc != 0 or to:
-                return i, None, "harness rc=%s: %s" % (rc, (se or so)[-1200:])
+                if vlib.crashed_in_repo(se):
+                    return i, None, "CRASH " + se[:6000]
+                return i, None, "harness rc=%s: %s" % (rc, (se or so)[:2500])
+            # the same cases (thorough: every fourth) between two real nodes; the observations join the others of the case
+            wp = os.path.join(w, "edf_wire_%d.ndjson" % i); wc = os.path.join(w, "edf_wcases_%d.ndjson" % i)
+            with open(wc, "w") as f:
+                for j, x in enumerate(open(cp), 1):
+                    if tier != "thorough" or j % 4 == 0:
+                        f.write(x)
+            rc, so, se, to = vlib.run_vh(vh, ["edf", "-wire", "-in", wc, "-out", wp], timeout=3000)
+            if rc != 0 or to:
+                if vlib.crashed_in_repo(se):
+                    return i, None, "CRASH " + se[:6000]
+                return i, None, "wire harness rc=%s: %s" % (rc, (se or so)[-1200:])
+            wire = {}
+            for x in open(wp):
+                d = json.loads(x); wire[d["id"]] = d["res"]
+            with open(op + ".m", "w") as fo:
+                for x in open(op):
+                    d = json.loads(x)
+                    if d["id"] in wire:
+                        d["res"] += wire[d["id"]]; x = json.dumps(d) + "\n"
+                    fo.write(x)
+            os.replace(op + ".m", op)
             name = "MC_EDFT_%d" % i
             open(os.path.join(w, name + ".tla"), "w").write("---- MODULE %s ----\nEXTENDS EDF_Trace\n====\n" % name)
             open(os.path.join(w, name + ".cfg"), "w").write("\n".join([
@@ -217,9 +263,14 @@ def main(prop, tier):
                 ' CasesFile = "edf_cases_%d.ndjson"' % i, ' ObsFile = "edf_obs_%d.ndjson"' % i, "CONSTRAINT HWM", "POSTCONDITION TraceAccepted", "CHECK_DEADLOCK FALSE"]) + "\n")
             r = vlib.run_tlc(w, name + ".tla", name + ".cfg", workers=1, timeout=5400, heap="3g")
             return i, r, None
-        viol = []; drift_over = drift_len = 0; tst = ttr = 0; lenline = None
+        viol = []; nviol = 0; drift_over = drift_len = 0; tst = ttr = 0; lenline = None
         with cf.ThreadPoolExecutor(nshard) as ex:
             for i, r, err in ex.map(run, range(nshard)):
+                if err and err.startswith("CRASH "):
+                    path = vlib.save_replay(prop, "edf_wire_crash", {"clause": "RoundTrip", "stderr": err[6:]})
+                    print("VIOLATION property=%s replay=%s" % (prop, path))
+                    print("  the process died inside the codec on bytes the encoder had produced (direct call or between two real nodes): %s" % (re.search(r'^(panic:.*|fatal error:.*)$', err, re.M) or [""])[0])
+                    return 1
                 if err:
                     raise vlib.Infra("shard %d: %s" % (i, err))
                 if re.search(r'TRACE_REJECTED_AT_LINE', r.out):
@@ -231,32 +282,38 @@ def main(prop, tier):
                 if not m:
                     raise vlib.Infra("EDF_Trace shard %d: no drift line: %s" % (i, r.out[-600:]))
                 drift_over += int(m.group(1)); drift_len += int(m.group(2))
-                obs = open(os.path.join(w, "edf_obs_%d.ndjson" % i)).read().splitlines()
-                mine = cases[i::nshard]
+                want = {line for _, line in hits[:200]} | ({int(m.group(3))} if int(m.group(3)) and lenline is None else set())
+                obs = {}
+                if want:
+                    for k, x in enumerate(open(os.path.join(w, "edf_obs_%d.ndjson" % i)), 1):
+                        if k in want:
+                            obs[k] = json.loads(x)
                 if int(m.group(3)) and lenline is None:
-                    o = json.loads(obs[int(m.group(3)) - 1]); lenline = {"case": mine[o["id"] - 1], "res": o["res"]}
+                    o = obs[int(m.group(3))]; lenline = {"case": case_of(i, o["id"]), "res": o["res"]}
                 tst += r.distinct; ttr += r.generated
-                for clause, line in hits:
-                    o = json.loads(obs[line - 1])
-                    viol.append({"clause": clause, "case": mine[o["id"] - 1], "res": o["res"]})
+                nviol += len(hits)
+                for clause, line in hits[:200]:
+                    o = obs[line]
+                    viol.append({"clause": clause, "case": case_of(i, o["id"]) if len(viol) < 60 else {"t": {}, "v": {}}, "res": o["res"]})
         broken = [v for v in viol if v["clause"] == "ModelBroken"]
         if broken:
             raise vlib.Infra("the model codec itself fails the law on a replayed case (specification error): %s" % json.dumps(broken[0]["case"])[:600])
-        total = len(cases); evals = total * 5
+        evals = total * 5
         if drift_over > evals // 50:
             raise vlib.Infra("the encoder refused %d of %d representable (case, configuration) pairs: the harness no longer matches the code" % (drift_over, evals))
-        distinct = len({json.dumps([c["t"], c["v"]], sort_keys=True) for c in cases})
+        distinct = nuni + len(seen)
         cov = {"evaluations": evals, "distinct_nontrivial": distinct,
                "rule": "a case is a (type term, value term) pair; the TLC-enumerated universe is duplicate-free by construction, random cases are de-duplicated by their JSON; every "
-                       "case is run under 5 cache configurations (none, codec cache, negotiated atom/type/error caches, both, partial type cache)",
-               "states": mst + tst, "transitions": mtr + ttr, "traces_validated_against_impl": total - len({json.dumps(v["case"], sort_keys=True) for v in viol}),
-               "samples": [cases[rng.randrange(nuni)], cases[nuni + rng.randrange(total - nuni)]],
+                       "case is run under 5 cache configurations (none, codec cache, negotiated atom/type/error caches, both, partial type cache) and sent between two real nodes "
+                       "(quick: every case, thorough: every fourth; inside an envelope, every third also as the message itself)",
+               "states": mst + tst, "transitions": mtr + ttr, "traces_validated_against_impl": total - nviol,
+               "samples": samples[:3],
                "universe_cases": nuni, "random_cases": total - nuni, "configurations": 5, "clauses": CLAUSES,
                "representable_but_refused": drift_over, "length_differs_from_model": drift_len, "length_drift_example": lenline, "exhaustive": False}
-        assumptions = ["the value grammar of spec/EDF.tla: boundary classes per leaf type (lengths 0/1/255/256 for atoms, 65533..65536 for strings, 32767/32768 for error texts, buffer growth points for binaries and custom marshalers; extreme numbers, NaN, infinities, signed zero), the 26 registered types of the harness, nesting as enumerated (quick: one level of interface values; thorough: one level of unnamed composites around every type) plus seeded random nesting to depth 4",
+        assumptions = ["the value grammar of spec/EDF.tla: boundary classes per leaf type (lengths 0/1/255/256 for atoms, 65533..65536 for strings, 32767/32768 for error texts, buffer growth points for binaries and custom marshalers; extreme numbers, NaN, infinities, signed zero), the registered types of the harness family (own types and seven the framework registers itself), nesting as enumerated (quick: one level of interface values; thorough: one level of unnamed composites around every type) plus seeded random nesting to depth 4",
                        "equality: same dynamic type everywhere; nil and empty kept apart except []byte; NaN equals NaN; time by instant and zone offset; errors by text, registered errors by identity when the error cache is negotiated",
-                       "cache configurations are built in one process from the codec's own registries the way net/handshake does; the exchange of the caches over a real connection is exercised by the C12 - C15 checks, not here"]
-        vlib.write_evidence(prop, tier, "exploration", cov, assumptions, time.time() - t0, violations=len(viol))
+                       "the five direct configurations are built in one process from the codec's own registries the way net/handshake does; the wire configurations use what two real nodes negotiated (one connection, pool of one link, no compression)"]
+        vlib.write_evidence(prop, tier, "exploration", cov, assumptions, time.time() - t0, violations=nviol)
         seen = set()
         for v in viol:
             key = (v["clause"], json.dumps(v["case"]["t"], sort_keys=True)[:200])
@@ -270,8 +327,8 @@ def main(prop, tier):
             print("  clause %s: type %s value %s; configuration %s: encode %s (%d bytes) decode %s %s rest=%d equal=%s again=%s prefixed=%s %s" % (
                 v["clause"], json.dumps(v["case"]["t"])[:160], json.dumps(v["case"]["v"])[:200], b["cfg"], b["enc"], b["len"], b["dec"], b["decerr"][:80], b["rest"], b["equal"], b["again"], b["prefixed"], b["diff"][:120]))
         print("%s %s: %d model states; %d cases (%d enumerated by TLC + %d random) x 5 configurations, %d validated against spec/EDF_Trace.tla, %d violations; refused though representable: %d, length differs from the model: %d; %.0fs" % (
-            prop, tier, mst, total, nuni, total - nuni, total - len(viol), len(viol), drift_over, drift_len, time.time() - t0))
-        return 1 if viol else 0
+            prop, tier, mst, total, nuni, total - nuni, total - nviol, nviol, drift_over, drift_len, time.time() - t0))
+        return 1 if nviol else 0
     finally:
         if not os.environ.get("VERIF_KEEP"):
             shutil.rmtree(w, ignore_errors=True)
